@@ -241,6 +241,9 @@ func (p *Progress) Wait() {
 func (p *Progress) Shutdown() {
 	p.cancel()
 	p.pwg.Wait()
+	// a bar added while the container was shutting down is cancelled right
+	// away, but its goroutine and shutdown listeners may still be running
+	p.bwg.Wait()
 }
 
 func (p *Progress) serve(s *pState, cw *cwriter.Writer) {
